@@ -603,3 +603,17 @@ V("c06a-preserving-renamed-accumulator", "C06", "silent",
 V("c06a-rewritten-twin-is-undecided-not-violation", "C06", {"exit": 2},
   (INDICES, "def get_index_in_fock_space_array(basis: np.ndarray) -> np.ndarray:\n    sum_ = np.zeros(shape=basis.shape[:-1], dtype=np.int32)\n    accumulator = np.zeros(shape=basis.shape[:-1], dtype=np.int32)\n\n    for i in range(basis.shape[-1]):\n        sum_ += basis[..., -1 - i]\n        accumulator += arr_comb(sum_ + i, i + 1)\n\n    return accumulator\n",
    "def get_index_in_fock_space_array(basis: np.ndarray) -> np.ndarray:\n    sums = np.cumsum(basis[..., ::-1], axis=-1)\n    accumulator = np.zeros(shape=basis.shape[:-1], dtype=np.int32)\n\n    for i in range(basis.shape[-1]):\n        accumulator += arr_comb(sums[..., i] + i, i + 1)\n\n    return accumulator\n"))
+
+# --- C08b Hermiticity-preserving update forms of the mixed-Fock density matrix
+GENSTEPS = "piquasso/_simulators/fock/general/simulation_steps.py"
+FSTEPS = "piquasso/_simulators/fock/simulation_steps.py"
+V("c08b-right-factor-not-adjoint", "C08", {"rule": "C08b", "contains": "congruence-matmul"},
+  (GENSTEPS, "    state._density_matrix = operator @ state._density_matrix @ operator.transpose()\n", "    state._density_matrix = operator @ state._density_matrix @ operator\n", 2))
+V("c08b-kerr-phase-not-antisymmetric", "C08", {"rule": "C08b", "contains": "phase-factor"},
+  (GENSTEPS, "        coefficient = np.exp(1j * xi * (number**2 - dual_number**2))\n", "        coefficient = np.exp(1j * xi * (number**2 + dual_number**2))\n"))
+V("c08b-einsum-same-sector-on-both-sides", "C08", {"rule": "C08b", "contains": "congruence-einsum"},
+  (GENSTEPS, "                        subspace_transformations[bra].T.conj(),\n", "                        subspace_transformations[ket].T.conj(),\n"))
+V("c08b-attenuator-weight-asymmetric", "C08", {"rule": "C08b", "contains": "attenuator"},
+  (FSTEPS, "np.tan(theta) ** (2 * k) * np.sqrt(comb(n, k) * comb(m, k))", "np.tan(theta) ** (2 * k) * comb(n, k)"))
+V("c08b-preserving-T-attribute", "C08", "silent",
+  (GENSTEPS, "    state._density_matrix = operator @ state._density_matrix @ operator.transpose()\n", "    state._density_matrix = operator @ state._density_matrix @ operator.T\n", 2))
